@@ -281,7 +281,8 @@ ProcsOpen(path, pids) ==
 Signal(pid, sig, ok) ==
   /\ InAtt("signal") /\ ~att.reaping
   /\ sig = 9 /\ pid > 0 /\ pid \in att.read
-  /\ att' = [att EXCEPT !.nr = IF ok THEN @ + 1 ELSE @]
+  \* every pid of a read is signalled at most once
+  /\ att' = [att EXCEPT !.nr = IF ok THEN @ + 1 ELSE @, !.read = @ \ {pid}]
   /\ keff' = keff \cup {Eff("signal", att.victim, pid)}
   /\ UNCHANGED <<kph, kx, kstat, kret, uuids>> /\ AttUnch
 
@@ -289,7 +290,7 @@ Signal(pid, sig, ok) ==
 Reap(pid) ==
   /\ InAtt("signal") /\ kcfg.reap /\ att.nr > 0
   /\ pid \in att.read
-  /\ att' = [att EXCEPT !.reaping = TRUE]
+  /\ att' = [att EXCEPT !.reaping = TRUE, !.read = @ \ {pid}]
   /\ keff' = keff \cup {Eff("reap", att.victim, pid)}
   /\ UNCHANGED <<kph, kx, kstat, kret, uuids>> /\ AttUnch
 
